@@ -116,7 +116,7 @@ inline std::string show(np const &n)
   if (!n->s.empty())
   {
     r += "'";
-    for (char ch : n->s) r += ch == '\t' ? std::string("\\t") : std::string(1, ch);
+    for (char ch : n->s) r += ch == '\t' ? std::string("\\t") : ch == '\xff' ? std::string("\\xff") : std::string(1, ch);
     r += "'";
   }
   if (n->k == REF) r += std::to_string(n->ref);
@@ -131,10 +131,10 @@ inline std::string show(np const &n)
 
 inline std::string const &alphabet()
 {
-  static std::string const a = "ab, ()1-.2\t";
+  static std::string const a = "ab, ()1-.2\t\xff"; // 0xFF: the char whose value collides with a char-converted EOF
   return a;
 }
-constexpr std::size_t alpha_main = 10; // the first 10 are used for grammar literals; '\t' only by skippers/inputs
+constexpr std::size_t alpha_main = 10; // the first 10 are used for grammar literals; '\t' only by skippers/inputs, 0xFF only by inputs
 constexpr int n_skippers = 8;
 
 // ------------------------------------------------------------------------------------- reference model
@@ -668,7 +668,7 @@ inline std::string describe(Ints const &ints, char const *chname)
   std::string r = std::string("<") + chname + "> grammar: " + show(pc.top);
   for (std::size_t i = 0; i < pc.rules.size(); ++i) r += " rule" + std::to_string(i) + ": " + show(pc.rules[i]);
   r += std::string(" skipper: ") + sks[pc.skipper] + " input: \"";
-  for (char ch : pc.input) r += ch == '\t' ? std::string("\\t") : std::string(1, ch);
+  for (char ch : pc.input) r += ch == '\t' ? std::string("\\t") : ch == '\xff' ? std::string("\\xff") : std::string(1, ch);
   return r + "\"" + (pc.via_grammar ? " (grammar_parse_string)" : " (phrase_parse_string)");
 }
 
